@@ -38,8 +38,8 @@ def gen(rng, tier, n):
             # already expired, the remaining time is 0
             tries = rng.choice([1, 1, 2])
             timeout = rng.choice([250, 300])
-            gap = rng.choice([20, 50, 90])
-            steps += ["qs:%d:sil%d.example:%d" % (tok, tok, gap + rng.choice([60, 150, 300])), "sleep:%d" % gap]
+            gap = rng.choice([20, 50])
+            steps += ["qs:%d:sil%d.example:%d" % (tok, tok, gap + rng.choice([40, 80, 120])), "sleep:%d" % gap]
             tok += 1
             steps += ["q:%d:sil%d.example" % (tok, tok)]
             tok += 1
